@@ -89,7 +89,10 @@ fn main() {
             let from: u64 = pos[n - 3].parse().unwrap_or_else(|_| usage());
             let to: u64 = pos[n - 2].parse().unwrap_or_else(|_| usage());
             let out = pos[n - 1].clone();
-            match pos[1].as_str() {
+            // a panic that escapes every guard inside the shard: leave a note for the parent
+            // (exit 4) instead of dying with 101
+            let out2 = out.clone();
+            let r = worker::guarded(move || match pos[1].as_str() {
                 "C18" => {
                     let cfg = c18::Config::parse(&pos[2]).unwrap_or_else(|| usage());
                     let seed: u64 = pos[3].parse().unwrap_or_else(|_| usage());
@@ -109,6 +112,13 @@ fn main() {
                     check05::shard(class, seed, &pos[4], scale, from, to, &out)
                 }
                 _ => usage(),
+            });
+            match r {
+                Ok(c) => c,
+                Err(p) => {
+                    let _ = std::fs::write(format!("{}.crash", out2), &p);
+                    4
+                }
             }
         }
         Some("loghash") => {
